@@ -694,9 +694,15 @@ def _download_from_resources(
     """
 
     def _worker(cache_miss: CacheMiss) -> bool:
+        # Download and post-process under a temporary name (that does not match the
+        # cache file pattern) and only move the result into place once complete, so
+        # that an interrupted or failed download never leaves a partial file behind
+        # that is later mistaken for a valid cache entry.
+        temporary_filepath = cache_miss.filepath + ".incomplete"
         try:
-            cache_miss.download_function(cache_miss.uri, cache_miss.filepath)
-            cache_miss.post_process_function(cache_miss.filepath)
+            cache_miss.download_function(cache_miss.uri, temporary_filepath)
+            cache_miss.post_process_function(temporary_filepath)
+            os.replace(temporary_filepath, cache_miss.filepath)
             return True
         except _RemoteResourceUriNotFound as e:
             if cache_miss.allow_for_missing_files:
@@ -706,6 +712,9 @@ def _download_from_resources(
             else:
                 raise e
             return False
+        finally:
+            if os.path.exists(temporary_filepath):
+                os.remove(temporary_filepath)
 
     # construct the arguments to be used for parallel downloading of files.
     # Specifically, we need to match the right resource for downloading to the
